@@ -31,7 +31,8 @@ fn range_check(tname: &str, stat: Stat, v: &Val, xs: &[f64], out: &mut Vec<Viola
     let m = xs.iter().fold(0.0f64, |a, x| a.max(x.abs()));
     let lo = xs.iter().cloned().fold(f64::INFINITY, f64::min);
     let hi = xs.iter().cloned().fold(f64::NEG_INFINITY, f64::max);
-    let t = 8.0 * n * UNIT * m;
+    // (floor: two spacings of the subnormal grid, where "up to rounding" is absolute)
+    let t = (8.0 * n * UNIT * m).max(1e-323);
     match v {
         Val::F(g) if *g >= lo - t && *g <= hi + t => {}
         _ => out.push(Violation {
@@ -132,13 +133,18 @@ fn weighted_judge<T: Chunky<Item = (f64, f64)>>() -> Judge<T> {
                         // retry with the wider tolerance C·n·u·max|x| over all observations
                         out.truncate(before);
                         let m = xs.iter().fold(0.0f64, |a, x| a.max(x.abs()));
-                        let t = 8.0 * n as f64 * UNIT * m;
+                        let t = (8.0 * n as f64 * UNIT * m).max(1e-323);
                         let lo = contributing.iter().cloned().fold(f64::INFINITY, f64::min);
                         let hi = contributing.iter().cloned().fold(f64::NEG_INFINITY, f64::max);
                         match v {
                             Val::F(g) if *g >= lo - t && *g <= hi + t => {}
                             _ => out.push(Violation {
-                                sig: format!("{}.weighted_mean:outside-data-range", T::NAME),
+                                // input class of its own: the products weight_sum·average of a merge
+                                // fall into the subnormal range (see known_findings.txt)
+                                sig: format!("{}.weighted_mean:outside-data-range{}", T::NAME, {
+                                    let minw = items.iter().filter(|p| p.1 > 0.0).map(|p| p.1).fold(f64::INFINITY, f64::min);
+                                    if m * minw < 2e-292 { ":weight-times-value-underflows" } else { "" }
+                                }),
                                 detail: format!("{}::weighted_mean = {} outside [{lo:?}, {hi:?}] ± {t:e} for {items:?}", T::NAME, v.show()),
                             }),
                         }
@@ -189,6 +195,10 @@ fn pairs(name: &str) -> Vec<(f64, f64)> {
         "ill-weights" => vec![(1e15 - 1., 0.), (1e15, 1e-6), (1e15 + 1., 1.), (1e15 + 2., 1e6), (1e15 - 1., 3.)],
         "ulp-weights" => vec![(1. - UNIT, 1e6), (1., 0.), (1. + 2. * UNIT, 1e-6), (1. + 4. * UNIT, 0.5)],
         "huge-weights" => vec![(1e150, 1e-6), (-1e150, 1e6), (1., 0.), (1e-150, 1.)],
+        // weights far below 1 (their sum stays below f64::EPSILON for a while)
+        "small-weights" => vec![(6., 1e-16), (5., 1e-17), (7., 3e-17), (1., 0.), (2., 1.)],
+        // subnormal and barely normal observations with fractional weights
+        "den-weights" => vec![(5e-324, 0.25), (2.5e-308, 1e-6), (1e-320, 1e-6), (2e-320, 1e-6), (2.5e-308, 0.)],
         _ => panic!(),
     }
 }
@@ -486,7 +496,7 @@ impl<T: Chunky> LargeRunMerge<T> {
                 }
             }
             if matches!(s, Stat::Mean | Stat::MeanX | Stat::UnweightedMean | Stat::WMean) {
-                let t = 8.0 * n as f64 * UNIT * m;
+                let t = (8.0 * n as f64 * UNIT * m).max(1e-323);
                 match v {
                     Val::F(g) if *g >= lo - t && *g <= hi + t => {}
                     _ => out.push(Violation {
@@ -593,7 +603,7 @@ pub fn plan(tier: Tier) -> Plan {
         checks.push(add::<Covariance>(a, pairs(a), if q { 6 } else { 8 }, cov_judge()));
         checks.push(trees::<Covariance>(a, pairs(a), if q { 5 } else { 6 }, cov_judge()));
     }
-    for a in ["ill-weights", "ulp-weights", "huge-weights"] {
+    for a in ["ill-weights", "ulp-weights", "huge-weights", "small-weights", "den-weights"] {
         checks.push(add::<WeightedMeanWithError>(a, pairs(a), if q { 5 } else { 7 }, weighted_judge::<WeightedMeanWithError>()));
         checks.push(trees::<WeightedMeanWithError>(a, { let mut p = pairs(a); p.truncate(4); p }, if q { 5 } else { 6 }, weighted_judge::<WeightedMeanWithError>()));
         checks.push(add::<WeightedMean>(a, pairs(a), if q { 5 } else { 7 }, weighted_judge::<WeightedMean>()));
@@ -624,8 +634,13 @@ pub fn plan(tier: Tier) -> Plan {
     checks.push(Box::new(HistVar::<H3> { max_total: mt, _h: Default::default() }));
     checks.push(Box::new(HistVar::<H4> { max_total: mt, _h: Default::default() }));
     Plan {
-        rule: "merges of LONG constant runs of far-apart values (values -1e150, 1e150, 1; run lengths 1..10^5; every two-run merge and every three-run merge in both bracketings; additionally a variance-type accessor bounded by n·(max-min)^2 < 1e306 must be finite); merges of constant runs of ADJACENT floating-point values (nine base values incl. 0.1, 0.3, 1e15+3, 1.1e150, a subnormal; neighbour distance 1..3 ulps; every pair of run lengths up to 8 / 16, both orders, and three-run nestings in both bracketings); AND no restriction on kappa: alphabets ill (offset 1e15 x spread), ulp (spread of one ulp), den (subnormals), huge (|x| = 1e150), off11, mixed; every add-sequence up to the depth bound AND every merge tree over every chunking (interval exploration) for Mean, Variance, Skewness, Kurtosis, Moments4, M6, Covariance, WeightedMean(WithError); on every reachable state every variance-type accessor is >= 0 and not NaN whenever defined, every mean lies within the data range ± 8·n·u·max|x|, effective_len lies in [1, len] up to n·2^-50; histograms LEN 1..4: every count vector of total <= 6 (9 thorough), variance(i) and variances() in [0, total/4] ± 4 ulp".into(),
-        assumptions: common_assumptions(),
+        rule: "merges of LONG constant runs of far-apart values (values -1e150, 1e150, 1; run lengths 1..10^5; every two-run merge and every three-run merge in both bracketings; additionally a variance-type accessor bounded by n·(max-min)^2 < 1e306 must be finite); merges of constant runs of ADJACENT floating-point values (nine base values incl. 0.1, 0.3, 1e15+3, 1.1e150, a subnormal; neighbour distance 1..3 ulps; every pair of run lengths up to 8 / 16, both orders, and three-run nestings in both bracketings); AND no restriction on kappa: alphabets ill (offset 1e15 x spread), ulp (spread of one ulp), den (subnormals), huge (|x| = 1e150), off11, mixed; weighted pairs additionally small-weights (1e-17..1e-16) and den-weights (subnormal and barely normal values with fractional weights); every add-sequence up to the depth bound AND every merge tree over every chunking (interval exploration) for Mean, Variance, Skewness, Kurtosis, Moments4, M6, Covariance, WeightedMean(WithError); on every reachable state every variance-type accessor is >= 0 and not NaN whenever defined, every mean lies within the data range ± 8·n·u·max|x|, effective_len lies in [1, len] up to n·2^-50; histograms LEN 1..4: every count vector of total <= 6 (9 thorough), variance(i) and variances() in [0, total/4] ± 4 ulp".into(),
+        assumptions: {
+            let mut a = common_assumptions();
+            a.push("weighted estimators: weights explored are 0 and values in [1e-17, 1e6] (C17 states no weight range); weights whose squares underflow or whose sum squared overflows are outside the explored space".into());
+            a.push("range tolerances have an absolute floor of two spacings of the subnormal grid (1e-323)".into());
+            a
+        },
         checks,
     }
 }
